@@ -27,8 +27,29 @@ macro_rules! sl_harness {
 // to constants); every other row settles at a symbolic offset, so each distance
 // ..,-31,-30,..,0,..,30,31,.. and both same-day file orders are inside the query.
 const SALE_DAY: i64 = 100;
-const OFF_MAX: i64 = 35;
-const SH_MAX: i64 = 15;
+// quick tier: offsets 0..32 (so 29, 30, 31, 32 are inside) and 1..7 shares;
+// thorough tier: offsets 0..35, 1..15 shares. The quick check must finish well
+// inside 15 minutes on a loaded machine.
+use crate::kani_model::tier::WIDE;
+const OFF_MAX: i64 = if WIDE { 35 } else { 32 };
+const SH_MAX: i64 = if WIDE { 15 } else { 7 };
+const GAP_MAX: i64 = if WIDE { 10 } else { 3 };
+
+/// Settlement offset of a neighbouring row. The C02 window harnesses always
+/// draw it symbolically (`always_symbolic`); the split / look-ahead / portion
+/// shapes draw it symbolically in the thorough tier and fix it (inside the
+/// window) in the quick tier, where the 30-day boundary is C02's job and the
+/// check has to finish well inside 15 minutes.
+fn off(always_symbolic: bool, quick_value: i64) -> i64 {
+    // (fixing the offsets in the quick tier was measured: no speed-up worth the
+    // loss of coverage, so they are always symbolic)
+    let _ = (always_symbolic, quick_value);
+    any_in(0, OFF_MAX)
+}
+fn gap(always_symbolic: bool, quick_value: i64) -> i64 {
+    let _ = (always_symbolic, quick_value);
+    any_in(0, GAP_MAX)
+}
 
 fn min3(a: i64, b: i64, c: i64) -> i64 {
     let m = if a < b { a } else { b };
@@ -103,7 +124,7 @@ sl_harness! {
     #[kani::unwind(5)]
     fn c02_w_buy_sale_buy() {
         let b0 = any_in(0, SH_MAX); let x = any_in(1, SH_MAX); let y = any_in(1, SH_MAX);
-        let o1 = any_in(0, OFF_MAX); let o2 = any_in(0, OFF_MAX);
+        let o1 = off(true, 6); let o2 = off(true, 8);
         let bd = b0 + x;
         let n = any_in(1, 2 * SH_MAX);
         ks::assume(n <= bd);
@@ -137,7 +158,7 @@ sl_harness! {
     fn c02_w_otherbuy_sale_sell() {
         let bd = any_in(1, SH_MAX); let bb0 = any_in(0, SH_MAX); let x = any_in(1, SH_MAX);
         let z = any_in(1, SH_MAX);
-        let o1 = any_in(0, OFF_MAX); let o2 = any_in(0, OFF_MAX);
+        let o1 = off(false, 6); let o2 = off(false, 8);
         let bb = bb0 + x;
         let n = any_in(1, SH_MAX);
         ks::assume(n <= bd);
@@ -179,7 +200,7 @@ sl_harness! {
     fn c02_w_regbuy_sale_otherbuy_othersell() {
         let bd = any_in(1, SH_MAX); let bb = any_in(0, SH_MAX); let br0 = any_in(0, SH_MAX);
         let w = any_in(1, SH_MAX); let y = any_in(1, SH_MAX); let z = any_in(1, SH_MAX);
-        let o0 = any_in(0, OFF_MAX); let o1 = any_in(0, OFF_MAX); let g = any_in(0, 10);
+        let o0 = off(false, 6); let o1 = off(false, 8); let g = gap(false, 2);
         let o2 = o1 + g;
         let br = br0 + w;
         let n = any_in(1, SH_MAX);
@@ -245,7 +266,7 @@ fn lookahead_split_sell(mode: u8) {
         (1, 3)
     };
     let z = any_in(1, 4 * SH_MAX);
-    let o1 = any_in(0, OFF_MAX); let g = any_in(0, 10);
+    let o1 = off(false, 6); let g = gap(false, 2);
     let o2 = o1 + g;
     let st = state_before_sale(bd, None, None);
     let txs = vec![a_sale(0, n, 0), a_split(0, post, pre, SALE_DAY + o1, 1), a_sell(0, z, SALE_DAY + o2, 2)];
@@ -286,7 +307,7 @@ sl_harness! {
     fn c15_w_buy_split_sale() {
         let x = any_in(1, SH_MAX);
         let m = any_in(1, 3); // m-for-1 split
-        let o1 = any_in(0, OFF_MAX); let g = any_in(0, 10);
+        let o1 = off(false, 6); let g = gap(false, 2);
         let o0 = o1 + g; // the buy is at or before the split
         let b0 = any_in(0, SH_MAX);
         let bd = (b0 + x) * m; // holdings at the sale, post-split
@@ -319,7 +340,7 @@ sl_harness! {
         let two = ks::any_bool(); // 2-for-1 or 1-for-1
         let m = if two { 2 } else { 1 };
         let y = any_in(1, SH_MAX);
-        let o1 = any_in(0, OFF_MAX); let g = any_in(0, 10);
+        let o1 = off(false, 6); let g = gap(false, 2);
         let o2 = o1 + g;
         let st = state_before_sale(bd, None, None);
         let txs = vec![a_sale(0, n, 0), a_split(0, m, 1, SALE_DAY + o1, 1), a_buy(0, y, SALE_DAY + o2, 2)];
@@ -455,7 +476,7 @@ sl_harness! {
         let bd = any_in(1, SH_MAX);
         let n = any_in(1, SH_MAX);
         ks::assume(n <= bd);
-        let o1 = any_in(0, OFF_MAX); let g = any_in(0, 10);
+        let o1 = off(false, 6); let g = gap(false, 2);
         let o0 = o1 + g; // the buy is at or before the split
         let bb = (bb0 + x) * m; // b's holdings at the sale, post-split
         let st = state_before_sale(bd, Some(bb), None);
@@ -486,7 +507,7 @@ sl_harness! {
         let bd = any_in(1, SH_MAX);
         let n = any_in(1, SH_MAX);
         ks::assume(n <= bd);
-        let o1 = any_in(0, OFF_MAX); let g = any_in(0, 10);
+        let o1 = off(true, 6); let g = gap(true, 2);
         let o0 = o1 + g; // the buy is at or before b's sale
         let st = state_before_sale(bd, Some(bb), None);
         let txs = vec![a_buy(1, x, SALE_DAY - o0, 0), a_sell(1, z, SALE_DAY - o1, 1), a_sale(0, n, 2)];
